@@ -601,6 +601,7 @@ func (g *G) MacroProgram() *m.Program {
 		params int
 	}
 	var libMacros []mi
+	selfInLib := false
 	for i := 0; i < nm; i++ {
 		np := g.intn("np", 0, 4)
 		n := &m.N{K: "macro", S: fmt.Sprintf("lm%d", i)}
@@ -618,6 +619,19 @@ func (g *G) MacroProgram() *m.Program {
 		if g.flip("mwho") {
 			n.Body = append(n.Body, whoCall())
 		}
+		if i >= 1 && g.intn("selfinlib", 0, 2) == 0 {
+			// a library macro that reaches a sibling through _self: inside a
+			// macro body _self is the template that defines the macro, whoever
+			// called it (the caller has a macro of the sibling's name as well)
+			selfInLib = true
+			if g.flip("selfvia") {
+				n.Body = append(n.Body, &m.N{K: "from", X: m.EName("_self"), Pairs: [][2]string{{"lm0", "sib"}}},
+					m.NPrint(&m.E{K: "mcall", S: "lm0", T: "from", U: "sib", A: []*m.E{m.ENum(float64(i))}}))
+			} else {
+				n.Body = append(n.Body, &m.N{K: "import", X: m.EName("_self"), S: "me"},
+					m.NPrint(&m.E{K: "mcall", S: "lm0", T: "alias", U: "me", A: []*m.E{m.ENum(float64(i))}}))
+			}
+		}
 		n.Body = append(n.Body, m.NText(")"))
 		lib.Body = append(lib.Body, n, m.NText("\n"))
 		libMacros = append(libMacros, mi{n.S, np})
@@ -628,6 +642,9 @@ func (g *G) MacroProgram() *m.Program {
 	g.C.Macros = true
 	for i, k := 0, g.intn("nlocal", 0, 2); i < k; i++ {
 		main.Body = append(main.Body, g.MacroDef(i))
+	}
+	if selfInLib {
+		main.Body = append(main.Body, &m.N{K: "macro", S: "lm0", Names: []string{"p0"}, Body: []*m.N{m.NText("MAIN-lm0("), m.NPrint(m.EName("p0")), whoCall(), m.NText(")")}})
 	}
 	main.Body = append(main.Body, &m.N{K: "import", X: m.EStr("lib"), S: "mm"})
 	// the template's own macros through an import of _self
@@ -643,7 +660,7 @@ func (g *G) MacroProgram() *m.Program {
 	for _, lm := range libMacros {
 		if g.flip("fromimp") {
 			local := lm.name
-			if g.flip("rename") {
+			if g.flip("rename") || (selfInLib && lm.name == "lm0") {
 				local = "f_" + lm.name
 				// sometimes the local name is that of a registered function:
 				// the imported macro takes its place
